@@ -23,6 +23,10 @@ CLAIMED = {
    text="types.Equal_Q (the = builtin) is proved, for all pairs of values of any nesting, to return exactly the one-step structural equality EQdef of the statement (sequences element-wise, same key set and equal values for maps, same members for sets, kinds otherwise distinguished, scalars by value) with recursive calls abstracted by the uninterpreted EQ; reflexivity, symmetry and transitivity induction steps, kind separation, list/vector equality and string/keyword/symbol distinctness are proved as lemmas on the specification.",
    note="M-IND/M-STRUCT: the fixpoint reading of EQ and the structural induction that lifts the lemma steps are meta-arguments; reflect.TypeOf is modelled as the dynamic-type tag; finite-map cardinality lemma is a library fact of the VC generator; values are assumed acyclic and unchanged during the comparison.",
    tech=TECH + "; functional post-condition against a spec function, quantified loop invariants, visited-set ghost for map ranges, spec lemmas"),
+ "C13": dict(level="proof", ref="DESIGN.md §4 C13",
+   text="43 functions behind the collection builtins carry functional post-conditions taken from the statement, README and step files (result kind, length, element-wise or key-wise content, error outside the domain): count, empty?, first, rest, nth, cons, vec, take, take-last, drop, drop-last, subvec, range, get, contains?, keys, vals, assoc, dissoc, conj, merge, concat (0-2 arguments functionally, any count for kind/freshness), seq, hash-map/NewHashMap, set/NewSet, rename-keys, copy helpers and the predicates' helpers are proved for all arguments with quantified loop invariants; apply, map, get-in, assoc-in, update, update-in have thin contracts (kinds, nil cases, error cases) only and are not claimed functionally.",
+   note="Normal returns only: a Go panic inside a builtin becomes a lisp error through the binder's wrapper (C04/C20). NewHashMap's value clause is 'some pair with that key' (last-wins proved for assoc/conj only). The anonymous one-line closures registered in Load (list, vector, hash-set, predicates) are covered through the helpers they call, not individually. Callback builtins (map, apply, update*) are thin.",
+   tech=TECH + "; functional post-conditions with quantified invariants, visited-set and visited-count ghosts for map ranges, finite-map cardinality lemma"),
 }
 
 NA_REASON_WIP = ("check under construction (the contract-based VC engine exists; this property's contracts are not wired yet): "
